@@ -4133,6 +4133,10 @@ func formatID(buf *TrackedBuffer, original, lowered string) {
 	if _, ok := keywords[lowered]; ok {
 		goto mustEscape
 	}
+	// The tokenizer lower-cases an unquoted dual, whatever its case.
+	if lowered == "dual" && original != lowered {
+		goto mustEscape
+	}
 	buf.Myprintf("%s", original)
 	return
 
